@@ -2,6 +2,7 @@
 #include <algorithm>
 
 #include "world.hpp"
+#include "tstate.hpp"
 
 namespace djsim
 {
@@ -844,17 +845,35 @@ void World::exec_step(const Step& s)
     gate_log.str(s.op);
     for (auto x : s.a)
         log.u64((uint64_t)x);
+    const bool cross = plan.cfg.profile.compare(0, 5, "cross") == 0 && tstate && tstate->lib;
+    auto l_done = [&] {
+        // crossover histories: T's row model follows what the track / crate API just wrote
+        if (cross && !stop)
+            table_sync_from_db();
+    };
     if (s.op == "create_track" || s.op == "update" || s.op == "remove_track" ||
         s.op == "set" || s.op == "rewrite")
-        return exec_track_op(s);
+    {
+        exec_track_op(s);
+        return l_done();
+    }
     if (s.op == "create_root" || s.op == "create_root_after" || s.op == "create_sub" ||
         s.op == "create_sub_after" || s.op == "set_name" || s.op == "set_parent" ||
         s.op == "remove_crate")
-        return exec_crate_op(s);
+    {
+        exec_crate_op(s);
+        return l_done();
+    }
     if (s.op == "add_track" || s.op == "remove_from" || s.op == "clear")
-        return exec_member_op(s);
+    {
+        exec_member_op(s);
+        return l_done();
+    }
     if (s.op == "clock" || s.op == "reload")
-        return exec_env_op(s);
+    {
+        exec_env_op(s);
+        return l_done();
+    }
     if (exec_table_op(s))
         return;
     if (exec_foreign_op(s))
